@@ -155,7 +155,8 @@ def lit_plain(s):
     i = 0
     while i < len(s):
         if s[i] == '_':
-            out += s[i + 1]
+            # (an underscore at the very end stands for itself)
+            out += s[i + 1] if i + 1 < len(s) else '_'
             i += 2
         else:
             out += s[i]
@@ -208,6 +209,17 @@ def items(cfg):
         fmt = pre + kind + post
         out = lit_plain(pre) + (s if kind == '&' else s[0]) + lit_plain(post)
         cases.append(('str', fmt, [s], rng.random() < 0.2, [out], None))
+    # the escape character at the very end of the format, and doubled
+    for suffix in ('_', 'x_', '__', '_#_', ' _'):
+        cases.append(('str', '&' + suffix, ['ab'], False,
+                      ['ab' + lit_plain(suffix)], None))
+        cases.append(('str', '_!!' + suffix, ['cd'], False,
+                      ['!c' + lit_plain(suffix)], None))
+        f = fields[len(suffix) % len(fields)]
+        v = values_for(f, rng)[0]
+        cases.append(('num', f.text() + ' ' + suffix, [v], False,
+                      sorted({o + ' ' + lit_plain(suffix)
+                              for o in expected_numeric(f, v)}), f))
     for _ in range(60 if cfg['tier'] == 'quick' else 600):
         f1, f2 = rng.choice(fields), rng.choice(fields)
         v1, v2 = rng.choice(values_for(f1, rng)), rng.choice(
